@@ -41,7 +41,8 @@ inline std::array<double, 3> dubins_ccc(const smooth::SE2d & target, double R, D
   // circle center distance
   const double d13 = (C3 - C1).norm();
 
-  if (d13 < std::numeric_limits<double>::epsilon()) {
+  // the circle centers carry rounding errors of order eps * R: compare relative to the radius
+  if (d13 < 1e-12 * R) {
     // if circles coincide we just follow the circle
     return {dubins_angle(smooth::SO2d::Identity(), target.so2(), c13), 0, 0};
   }
@@ -90,7 +91,8 @@ inline std::array<double, 3> dubins_csc(const smooth::SE2d & target, double R, D
   // distance between circles
   const double d13 = (C3 - C1).norm();
 
-  if (d13 < std::numeric_limits<double>::epsilon()) {
+  // the circle centers carry rounding errors of order eps * R: compare relative to the radius
+  if (d13 < 1e-12 * R) {
     if (c1 == c3) {
       // same initial and final, just follow the circle
       return {dubins_angle(smooth::SO2d::Identity(), target.so2(), c1), 0, 0};
